@@ -15,6 +15,7 @@ CaseJson ==
 Emit == c.k \in {"init", "grp"} \/ PrintT(<<"CASE", CaseJson>>)
 
 ASSUME LayoutsWellFormed
+ASSUME LaypHasTeeth
 ASSUME \A b \in Byte : LvmAgree(b)
 
 \* quick / thorough constants (cfg files cannot hold expressions)
